@@ -54,7 +54,9 @@ FnIsNil(fn) == [m \in Methods |-> fn[m] = Nil]
 
 Ev(op, m, f, args, reply, fwd, lg, fn) ==
   [op |-> op, m |-> m, f |-> f, args |-> args, reply |-> reply, fwd |-> fwd, logs |-> lg, fnil |-> FnIsNil(fn),
-   by |-> ByLogs(sig), snaps |-> snaps]     \* the abstract log has no aliasing: retained results never change
+   by |-> ByLogs(sig), snaps |-> snaps,     \* the abstract log has no aliasing: retained results never change
+   after |-> args,                          \* placeholder; the expectation per concrete type set is afterby
+   afterby |-> [ts \in TypeSetNames |-> IF op = "call" THEN AfterFor(ts, m, sig[m], func[m], args) ELSE << >>]]
 
 Do(e) == /\ last' = e
          /\ hist' = Append(hist, e)
@@ -144,7 +146,10 @@ P_ResultsAreFuncResults     == [][IsCall => ResultsAreFuncResults(sig, opt, func
 P_NilFuncContract           == [][IsCall => NilFuncContract(sig, opt, func, log, last')]_vars
 P_ResetEmptiesOnlyItsTarget == [][Stepped /\ last'.op \in {"resetm", "resetall"} =>
                                     ResetEmptiesOnlyItsTarget(sig, opt, func, log, last')]_vars
-P_StepOK                    == [][Stepped => StepOK(sig, opt, func, log, ByLogs(sig), snaps, last') /\ func' = FuncsAfter(func, last')
+P_StepOK                    == [][Stepped => (\A ts \in TypeSetNames :
+                                                StepOK(sig, opt, ts, func, log, ByLogs(sig), snaps,
+                                                       [last' EXCEPT !.after = last'.afterby[ts]]))
+                                             /\ func' = FuncsAfter(func, last')
                                              /\ log' = last'.logs]_vars
 
 TypeOK == /\ \A m \in Methods : func[m] \in FuncIds \cup {Nil}
